@@ -34,18 +34,15 @@ theorem DMon.micro : ∀ rt, MReach rt → ∀ s, DMonP s (getS rt s) rt.client 
   · intro s a ha rt hr hg h
     refine all_setS_cl DMonP rt s _ ?_ h
     intro he hm
-    rw [(src_keeps_script s a ha _).2] at he
-    exact DMon.src s rt.client rt.state a ha _ hg (TInvAll.micro rt hr s) (DUse.micro rt hr s he hm) (h s he hm)
+    exact DMon.src s rt.client rt.state a ha _ hg (TInvAll.micro rt hr s) (DUse.micro rt hr s (Here.intro _) hm) (h s (Here.intro _) hm)
   · intro s a ha rt _ hg h
     refine all_setS_cl DMonP rt s _ ?_ h
     intro he hm
-    rw [(flt_keeps_script a ha _).2] at he
-    exact DMon.flt s rt.client a ha _ hg (h s he hm)
+    exact DMon.flt s rt.client a ha _ hg (h s (Here.intro _) hm)
   · intro s a ha rt hr hg h
     refine all_setS_cl DMonP rt s _ ?_ h
     intro he hm
-    rw [(snk_keeps_script s a ha _).2] at he
-    exact DMon.snk s rt.client rt.state a ha _ hg (TInvAll.micro rt hr s) (DUse.micro rt hr s he hm) (h s he hm)
+    exact DMon.snk s rt.client rt.state a ha _ hg (TInvAll.micro rt hr s) (DUse.micro rt hr s (Here.intro _) hm) (h s (Here.intro _) hm)
   · intro a ha rt hr hg h
     exact client_families DMon.Kept DMon.client_base DMon.client_mon DMon.client_cfg DMon.client_start DMon.client_err
       DMon.client_stop DMon.client_acc DMon.client_flush a ha rt (TInvAll.micro rt hr) (DUse.micro rt hr) hg h
